@@ -26,3 +26,4 @@ pub mod c13;
 pub mod specbin;
 pub mod c03;
 pub mod c04;
+pub mod c05;
